@@ -49,18 +49,28 @@ def make_layouts(rng, n_eng, n_lines, same=False):
         chars = rng.sample('abcdefgh', k)
         charsets.append(chars)
     base = None
+    # how each engine's export groups the (identical) lines into regions: usually all engines alike and one region;
+    # sometimes several regions, regions without text lines, and a different grouping per engine
+    def cuts():
+        m = rng.randrange(1, 4)
+        return sorted(rng.randrange(0, n_lines + 1) for _ in range(m - 1))
+    shared = [] if rng.random() < 0.5 else cuts()
+    differ = rng.random() < 0.4
+    first_lines = []
     for e in range(n_eng):
         pl = PageLayout(id='p', page_size=(100, 200))
         reg = RegionLayout('r1', np.array([[0, 0], [200, 0], [200, 100], [0, 100]]))
+        my_cuts = cuts() if (differ and not same) else shared
+        lines_all = []
         chars = charsets[0] if same else charsets[e]
         C = len(chars) + 1
         for li in range(n_lines):
             mode = rng.random()
             if mode < 0.15:
                 text = ''
-            elif e > 0 and rng.random() < 0.35 and li < len(layouts[0].regions[0].lines) and \
-                    all(ch in chars for ch in (layouts[0].regions[0].lines[li].transcription or '')):
-                text = layouts[0].regions[0].lines[li].transcription      # engines agreeing on the text (different logits / charset order)
+            elif e > 0 and rng.random() < 0.35 and li < len(first_lines) and \
+                    all(ch in chars for ch in (first_lines[li].transcription or '')):
+                text = first_lines[li].transcription      # engines agreeing on the text (different logits / charset order)
             else:
                 text = ''.join(rng.choice(chars) for _ in range(rng.randrange(1, 5)))
             T = rng.randrange(max(1, 2 * len(text)), 2 * len(text) + 6)
@@ -78,8 +88,14 @@ def make_layouts(rng, n_eng, n_lines, same=False):
                             logit_coords=[0, T])
             # a confidence already stored with the line (PAGE XML `conf`, earlier export): None, low or high
             line.transcription_confidence = rng.choice([None, None, round(rng.random(), 3), 0.95, 1.0, 0.0])
-            reg.lines.append(line)
-        pl.regions.append(reg)
+            lines_all.append(line)
+        if e == 0:
+            first_lines = lines_all
+        bounds = [0] + list(my_cuts) + [n_lines]
+        for ri in range(len(bounds) - 1):
+            reg = RegionLayout('r%d' % (ri + 1), np.array([[0, 0], [200, 0], [200, 100], [0, 100]]))
+            reg.lines = lines_all[bounds[ri]:bounds[ri + 1]]
+            pl.regions.append(reg)
         layouts.append(pl)
     if same:
         layouts = [layouts[0]] + [copy.deepcopy(layouts[0]) for _ in range(n_eng - 1)]
@@ -116,7 +132,7 @@ def _run(ctx):
                 c = ms.get_confidences(line)
                 row.append(float(c.mean()) if c.size > 0 else -10.0)
             confs.append(row)
-        inp = dict(engines=n_eng, lines=n_lines, self_merge=same,
+        inp = dict(engines=n_eng, lines=n_lines, self_merge=same, regions=[[len(r.lines) for r in pl.regions] for pl in before],
                    texts=[[l.transcription for l in pl.lines_iterator()] for pl in before], confidences=confs,
                    stored_confidences=[[l.transcription_confidence for l in pl.lines_iterator()] for pl in before])
         try:
